@@ -133,11 +133,23 @@ pub fn run(args: &Args) -> Value {
     }
     // ---- tempering containers: snapshot right after a swap phase and in between
     let n_lad = if args.thorough { 150 } else { 14 };
+    let mut n_late_replicas = 0usize;
     for li in 0..n_lad {
         let nrep = 2 + rng.below(4) as usize;
         let lad = crate::c10::random_ladder(&mut rng, nrep);
         let mut tc = crate::c10::build(&lad, &mut rng);
         for round in 0..4 {
+            // every other ladder grows by one replica AFTER tempering steps have run (the container's
+            // cached pair information already exists then and must stay consistent with what a
+            // restored container recomputes)
+            if round == 1 && li % 2 == 1 {
+                let mut late = lad.specs[rng.below(lad.specs.len() as u64) as usize].clone();
+                late.state = (0..late.nvars).map(|_| rng.chance(1, 2)).collect();
+                let b = [0.25, 0.5, 1.0, 2.0][rng.below(4) as usize];
+                if tc.add_qmc_stepper(late.build(TapeRng::new(rng.next())), b).is_ok() {
+                    n_late_replicas += 1;
+                }
+            }
             tc.timesteps(1 + rng.below(3) as usize);
             if round % 2 == 0 {
                 tc.tempering_step();
@@ -214,7 +226,7 @@ pub fn run(args: &Args) -> Value {
     oracle_failures.truncate(40);
     let files = crate::write_shards(&args.out, "C14", "Steps", &coq, 100);
     json!({"files": files, "evaluations": n_points + n_temper_points, "distinct_nontrivial": distinct.len(), "sampler_snapshot_points": n_points,
-        "snapshot_points_mid_growth": n_growth_points, "tempering_snapshot_points": n_temper_points, "model_replays_of_restored_samplers": coq.len(),
+        "snapshot_points_mid_growth": n_growth_points, "tempering_snapshot_points": n_temper_points, "ladders_grown_after_tempering_steps": n_late_replicas, "model_replays_of_restored_samplers": coq.len(),
         "oracle_failures": oracle_failures, "samples": samples,
-        "rule": "every step index of random runs (before any step, mid-growth of the cutoff, heat bath / RVB / field on and off, initial cutoffs 1..6) is a snapshot point: direct JSON round trip (twice), RNG-less form with the same RNG re-attached, verify(), JSON equality of everything serde exposes (incl. pool sizes and counters), and 3 further steps of all copies against the uninterrupted run; tempering containers right after swap phases and in between; one step of a restored copy is also replayed by the model"})
+        "rule": "every step index of random runs (before any step, mid-growth of the cutoff, heat bath / RVB / field on and off, initial cutoffs 1..6) is a snapshot point: direct JSON round trip (twice), RNG-less form with the same RNG re-attached, verify(), JSON equality of everything serde exposes (incl. pool sizes and counters), and 3 further steps of all copies against the uninterrupted run; tempering containers right after swap phases and in between, half of them grown by a replica after tempering steps have run; one step of a restored copy is also replayed by the model"})
 }
